@@ -141,6 +141,7 @@ type RowA struct {
 	S       string
 	N       Named
 	NI      NamedInt `sql:"ni"`
+	Mx      int64    `sql:"MixedCol"` // a column named the way it is spelled in the DDL, capitals included
 	By      []byte
 	T       time.Time
 }
